@@ -130,6 +130,7 @@ func checkC07(c *Check) {
 	c.readerHandoffRule("C07.4 loser-reader-joined")
 	c.peerManagerContracts("C07.5 manager-effects")
 	c.fsmContracts("C07.3 fsm-effects")
+	c.validateArguments("C07.1 equal-identifiers-admitted")
 	c.specConstants("C07.3 spec-constants", "NOTIF_CODE_CEASE")
 	fn := p.Fn("peer.handleStateTransition")
 	if fn == nil || len(fn.Params) != 3 {
